@@ -44,11 +44,8 @@ pub fn f32_min_as_f64() -> (r: f64) ensures r == f32_min_spec() { f32::MIN as f6
 #[verifier::external_body]
 pub fn f32_max_as_f64() -> (r: f64) ensures r == f32_max_spec() { f32::MAX as f64 }
 
-/// A-FP-TOTAL (called with explicit arguments: quantified float axioms do not instantiate for struct fields)
-pub axiom fn f64_total(x: f64, y: f64)
-    ensures x.mul_req(y), x.add_req(y), x.sub_req(y), x.div_req(y);
-
-/// A-FP-TOTAL as a broadcast fact (needed inside closure bodies, where no ghost call can be spliced)
+/// A-FP-TOTAL as broadcast facts. They instantiate for parameters, locals and results; for operands that are struct
+/// fields Verus lacks the f64 typing fact, so units restate the axiom per struct (see U-CHK12 `chk_fp`).
 pub broadcast axiom fn f64_total_mul(x: f64, y: f64) ensures #[trigger] x.mul_req(y);
 pub broadcast axiom fn f64_total_add(x: f64, y: f64) ensures #[trigger] x.add_req(y);
 pub broadcast axiom fn f64_total_sub(x: f64, y: f64) ensures #[trigger] x.sub_req(y);
